@@ -24,6 +24,17 @@ def evaluator(m, modname):
     return PE.Evaluator(PE.module_regexes(m, modname))
 
 
+def evaluator_with_funcs(m, modname):
+    """evaluator whose globals also hold the module's own top-level functions (interpreted on demand)."""
+    g = dict(PE.module_regexes(m, modname))
+    ev = PE.Evaluator(g)
+    path = m.modfile.get(modname)
+    for (p_, q), f in m.funcs.items():
+        if p_ == path and "." not in q and q not in ev.g:
+            ev.g[q] = (lambda fn: (lambda *a, **k: ev.run_function(fn.node, list(a), k)))(f)
+    return ev
+
+
 def run_pred(r, ev, func, args, what):
     """Interpret func on args; Unsupported -> analysis error recorded on r (returns a marker)."""
     try:
@@ -225,21 +236,19 @@ def c05_rules(m):
     r = RuleResult("C05.R5", "the fixed-form label conversion is total on the label field (blanks are insignificant) and reads columns 1-5")
     r.floor = 1
     g = m.need_func(RF, "FortranReaderBase.get_source_item")
-    ints = []
+    # the statements that compute `label` from the label field: the leading part of the `if self._format.is_fixed:` block
+    blk = None
     for n in A.body_nodes(g.node):
-        if isinstance(n, ast.Assign) and isinstance(n.value, ast.Call) and A.text(n.value.func) == "int" and A.text(n.targets[0]) == "label":
-            ints.append(n)
-    if not ints:
-        r.error("get_source_item: `label = int(...)` not found (anchor vanished)")
-    for n in ints:
-        arg = n.value.args[0]
-        defs = [x for x in A.body_nodes(g.node) if isinstance(x, ast.Assign) and isinstance(arg, ast.Name)
-                and A.text(x.targets[0]) == arg.id]
-        expr = defs[0].value if len(defs) == 1 else (arg if not isinstance(arg, ast.Name) else None)
-        if expr is None:
-            r.error("get_source_item: the operand of the label's int() has no single definition")
-            continue
-        ev = evaluator(m, RF)
+        if isinstance(n, ast.If) and A.text(n.test) in ("self._format.is_fixed", "self._format.is_fix") and \
+                any(isinstance(x, (ast.Assign,)) and "label" in {y for t in x.targets for y in A.assigned_names(t)} for s_ in n.body for x in ast.walk(s_)):
+            blk = n
+    if blk is None:
+        r.error("get_source_item: the fixed-form block that computes the statement label was not found (anchor vanished)")
+    else:
+        last = max(i for i, s_ in enumerate(blk.body) if any(isinstance(x, ast.Assign) and "label" in {y for t in x.targets for y in A.assigned_names(t)}
+                                                             for x in ast.walk(s_)))
+        stretch = blk.body[:last + 1]
+        ev = evaluator_with_funcs(m, RF)
         bad = None
         cnt = 0
         for w in words(" 12", 5, 5):
@@ -248,23 +257,23 @@ def c05_rules(m):
             cnt += 1
             r.instances += 1
             want = int(w.replace(" ", ""))
+            env = {"line": w + " continue", "label": None, "name": None,
+                   "self": PE.Obj({"_format": PE.Obj({"is_f77": True, "is_fixed": True, "is_fix": True})})}
             try:
-                s = ev.ev(expr, {"line": w + " continue"})
-                got = int(s) if s else None
-            except ValueError:
-                got = "ValueError"
+                ev.block(stretch, env)
+                got = env.get("label")
             except PE.PyRaise as err:
                 got = err.exc_type
             except PE.Unsupported as err:
-                r.error("cannot interpret the label operand `%s` (%s)" % (A.text(expr), err))
+                r.error("cannot interpret the label extraction of get_source_item (%s)" % err)
                 break
             ok = got == want
             r.ob(ok, "label field %r -> %r" % (w, got) if cnt % 60 == 1 else None)
             if not ok and bad is None:
                 bad = (w, got, want)
         if bad:
-            r.fail("label-int|%s" % A.text(expr), "the fixed-form label field %r is converted by int(%s) to %r, not %r: the statement "
-                   "is lost or mislabelled" % (bad[0], A.text(expr), bad[1], bad[2]), m.loc(g, n))
+            r.fail("label-field|%s" % A.text(stretch[0])[:40], "the fixed-form label field %r gives the label %r, not %r (blanks are not significant in "
+                   "fixed form): the statement is lost or mislabelled" % (bad[0], bad[1], bad[2]), m.loc(g, stretch[0]))
     out.append(r)
     return out
 
